@@ -696,7 +696,11 @@ def execute(case):
         for i, d in dels:
             if d.get('prime'):
                 clean_defect = dict(defect, kind='nonprintable', char='x', second=None) if defect['kind'] == 'nonprintable' else None
-                if clean_defect is not None:
+                # the two halves exist before the twin does, so that after the twin is released exactly ONE object of its size
+                # is allocated: the fresh copy of the defective text (a + b), which then very likely gets the twin's address
+                half = len(data) // 2
+                a, b = data[:half], data[half:]
+                if clean_defect is not None and half:
                     twin = build_defect(text, clean_defect, family)[0]
                     if len(twin) == len(data):
                         try:
@@ -706,9 +710,10 @@ def execute(case):
                             raise
                         except Exception:
                             pass        # whatever the clean twin does (e.g. '!!int x' -> ValueError in a constructor) is not the subject here
+                        _ = None
                         out['probes']['primed_in_memory_deliveries'] = out['probes'].get('primed_in_memory_deliveries', 0) + 1
                     del twin
-                fresh = build_defect(text, defect, family)[0]        # a new object, allocated after the twin was released
+                fresh = a + b
                 items, err, readlog, _ = deliver(yaml, fresh, d, api, backend, 0)
                 del fresh
             else:
